@@ -15,7 +15,8 @@ LEVEL_TEXT = ("The rewriter is stepped (_take_reduction_step) from each input of
               "intermediate form is recorded. Tree SHAPES are enumerated (this technique cannot quantify over shapes); the solver contributes the value "
               "space: constants are symbolic, so every value test of a rule (== 0, == 1, == -1, integral, > 0, parity of a symbolic n) is a solver-checked "
               "fork and each feasible combination of rule firings is a path. Per path: no form recurs once left, the number of steps is at most "
-              "2*size^2+10, a freshly built copy of the final form is not rewritten any further (rule-free), the library's own driver emits no "
+              "2*size^2+10, a freshly built copy of the final form is not rewritten any further (rule-free), none of the rewrite rules that the nodes of the final form "
+              "list (read from the running code) fires on them, the library's own driver emits no "
               "'unable to fully reduce' warning for inputs of <= 20 nodes. An unbounded termination proof is not claimed "
               "(no polynomial interpretation exists for this rule set, DESIGN.md 6/C11).")
 BOUNDS = {"quick": {"inputs": "all F4 rule patterns (every two-level combination that can enable several rules at once, symbolic and critical constants), stratified F2, "
@@ -151,6 +152,11 @@ def analyse(outs, twin=False):
                 res.append(("second-reduction-of-the-same-object-terminates", None if (done2 and norevisit2 and k2 <= bound) else
                             f"second walk: {k2} steps, fully reduced {done2}, no form revisited {norevisit2}"))
                 res.append(("second-reduction-reaches-the-same-form", None if same2 else "the second reduction of the same object ends in a different form"))
+        if len(outs) > 5:
+            nr = outs[5]
+            if nr["kind"] == "value":
+                res.append(("no-rewrite-rule-of-any-node-fires-on-the-final-form", None if nr["value"] is True else str(nr["value"])[:200]))
+            # (an exception here means the rule lists are not exposed the way this sub-check reads them: it then says nothing)
         # (n1 != n2 is NOT checked: _normalize() is not idempotent - its normal-form pass can expose new rule instances, e.g. two
         #  reciprocals of equal powers become a product of equal powers - and the property does not ask for idempotence; see DESIGN.md)
     return res
